@@ -179,7 +179,7 @@ def stream_mac(rep, prog, f, tag):
     ct_copies = set()
     le_fed = {}   # array root -> set of 'ad'/'ct' whose length reaches it via to_le_bytes
     for c in f.calls():
-        if c.path == "core::slice::<impl [T]>::copy_from_slice" and len(c.args) == 2:
+        if c.path in cm.COPY and len(c.args) == 2:
             dst = [cm.view_info(f, l)[0] for l in operand_locals(c.args[0])]
             srcl = list(operand_locals(c.args[1]))
             for sl in srcl:
